@@ -40,9 +40,18 @@ def run(tier, seed):
             stats["disagree"] += 1
         if r["nondeterministic"]:
             stats["nondeterministic"] += 1
-            two = len(r["allowed"]) > 1
+            obs = set(r["observed"])
+            errs = obs - {"result"}
             # the property itself: more than one outcome for the same input
-            sig = "design:first-binding-decides" if two else "replay:auth-outcomes:nondeterministic-unexplained"
+            if len(r["allowed"]) > 1 and obs <= set(r["allowed"]):
+                if "result" in obs and errs:
+                    sig = "design:first-binding-decides"
+                elif len(errs) > 1:
+                    sig = "design:which-error-depends-on-visiting-order"
+                else:
+                    sig = "replay:auth-outcomes:nondeterministic-unexplained"
+            else:
+                sig = "replay:auth-outcomes:nondeterministic-unexplained"
             ctx.finding(sig, "observed %s over %d builds" % (sorted(r["detail"])[:2], n), {"kind": "auth-outcomes", "case": case, "row": r})
         else:
             stats["deterministic"] += 1
